@@ -43,7 +43,15 @@ def label_covering_trees(rng, lang):
         for text in ['S[mod=adn,form=base,fin=f]', 'S[mod=adn,form=base,fin=f]\\NP[case=ga,mod=nm,fin=f]',
                      'S[mod=adv,form=cont,fin=f]', 'S[mod=adv,form=cont,fin=f]\\NP[case=ga,mod=nm,fin=f]',
                      '(S[mod=adv,form=cont,fin=f]\\NP[case=ga,mod=nm,fin=f])\\NP[case=o,mod=nm,fin=f]',
-                     'S[mod=nm,form=base,fin=f]']:
+                     'S[mod=nm,form=base,fin=f]',
+                     # deeper and differently shaped inputs (custom unary tables may name any category): the
+                     # label vocabulary must stay within what every offered format can render
+                     '((S[mod=adv,form=cont,fin=f]\\NP[case=ga,mod=nm,fin=f])\\NP[case=ni,mod=nm,fin=f])\\NP[case=o,mod=nm,fin=f]',
+                     '(((S[mod=adv,form=cont,fin=f]\\NP[case=ga,mod=nm,fin=f])\\NP[case=ni,mod=nm,fin=f])\\NP[case=o,mod=nm,fin=f])\\NP[case=to,mod=nm,fin=f]',
+                     '(S[mod=adn,form=base,fin=f]\\NP[case=ga,mod=nm,fin=f])\\NP[case=o,mod=nm,fin=f]',
+                     'S[mod=adv,form=cont,fin=f]/NP[case=ga,mod=nm,fin=f]',
+                     '(S[mod=adv,form=cont,fin=f]/NP[case=ga,mod=nm,fin=f])\\NP[case=o,mod=nm,fin=f]',
+                     'NP[case=nc,mod=adv,fin=f]', 'NP[case=nc,mod=adn,fin=f]\\NP[case=nc,mod=nm,fin=f]']:
             x = Category.parse(text)
             for r in ja.apply_unary_rules(x, {x: [Category.parse('NP[case=nc,mod=nm,fin=f]/NP[case=nc,mod=nm,fin=f]')]}):
                 key = ('U', r.op_string, r.op_symbol)
